@@ -176,6 +176,23 @@ class Evaluator:
             if nm in ('pi', 'PI') and 'manufactured_solution<' in q:
                 return ('sym', 'pi')
             if e.get('const'):
+                # tables and integer constants at namespace scope are data of the program: use their initialiser
+                ty_g = str(e.get('t', ''))
+                var = self.prog.vars.get(q) if self.prog is not None else None
+                if var is not None and var.get('init') is not None and (
+                        '[' in ty_g or ty_g.replace('const ', '').strip() in self.INT_RANGES or ty_g.replace('const ', '').strip() in ('bool', 'unsigned long', 'std::size_t', 'size_t')):
+                    cache = self.__dict__.setdefault('_gconst', {})
+                    if q not in cache:
+                        cache[q] = None
+                        try:
+                            g_fr = {'id': self.new_frame_id(), 'args': [], 'this': '', 'depth': 0, 'fn': None}
+                            v_g = self.E(var['init'], Path(), g_fr)
+                            if not has_unk(v_g):
+                                cache[q] = v_g
+                        except Exception:
+                            cache[q] = None
+                    if cache[q] is not None:
+                        return cache[q]
                 return ('sym', 'const:' + nm)
             return ('sym', 'global:' + q)
         if k == 'member':
@@ -184,6 +201,11 @@ class Evaluator:
                 bt = self.E(e['base'], P, fr)
                 if bt[0] == 'deref' and bt[1][0] == 'addr':
                     bt = bt[1][1]
+                if bt[0] in ('arr', 'aptr'):
+                    # p->field with p a pointer into a constant array
+                    arr_, i_ = (bt[1], bt[2]) if bt[0] == 'aptr' else (bt, 0)
+                    if 0 <= i_ < len(arr_[1]):
+                        bt = arr_[1][i_]
                 if bt[0] == 'struct':
                     return bt[1].get(e['n'], ('unk', 'unset field ' + e['n']))
                 return ('field', bt, e['n'])
@@ -461,6 +483,14 @@ class Evaluator:
                 self.assign(a[1], v, P, a[2], loc)
             else:
                 fr['args'][t['i']] = v
+                pt = ''
+                try:
+                    pt = str(fr['fn'].params[t['i']]['t']) if fr.get('fn') is not None else ''
+                except (IndexError, KeyError, AttributeError):
+                    pt = ''
+                if pt.endswith('&') and not pt.endswith('&&'):
+                    # a reference parameter of the entry function: the store is visible to the caller
+                    P.events.append(('write-through', ('sym', t['n']), loc, v))
             return
         if k == 'un' and t['op'] == '*':
             p = self.E(t['e'], P, fr)
@@ -569,9 +599,11 @@ class Evaluator:
             if n == 'epsilon':
                 return ('sym', 'const:epsilon')
             if n == 'operator<<':
-                for a in args:
+                for i_, a in enumerate(args):
                     if a[0] == 'str':
                         P.events.append(('print', a[1], loc))
+                    elif i_ > 0 and not (a[0] == 'sym' and a[1].startswith('fn:std::')) and not (a[0] == 'unk' and a[1] == 'ostream'):
+                        P.events.append(('print-value', a, loc))
                 return ('unk', 'ostream')
             if n in ('exit', '_exit', '_Exit', 'abort', 'quick_exit', 'terminate'):
                 P.events.append(('terminate', (n, args), loc))
@@ -590,6 +622,11 @@ class Evaluator:
                         P.mem[path] = args[1] if n == 'operator=' and len(args) > 1 else ('call', 'container:' + n, args)
                         self.trace.writes.setdefault(path, []).append(loc)
                         return ('sym', path)
+                if n == 'operator+' and len(args) == 2 and args[0][0] == 'str' and args[1][0] == 'str':
+                    return ('str', args[0][1] + args[1][1])
+                if n == 'operator+=' and len(args) == 2 and args[0][0] == 'str' and args[1][0] == 'str' and ob.get('k') in ('local', 'param'):
+                    self.assign(args_e[0], ('str', args[0][1] + args[1][1]), P, fr, loc)
+                    return ('str', args[0][1] + args[1][1])
                 if n in ('operator=', 'operator+=') and ob.get('k') == 'local':
                     cur_ = P.locals.get((fr['id'], ob['id']))
                     if cur_ is not None and cur_[0] == 'alias' and n == 'operator=' and len(args) > 1:
@@ -606,6 +643,11 @@ class Evaluator:
                     self.assign(args_e[0], args[1] if len(args) > 1 else ('unk', 'assign'), P, fr, loc)
                     return args[0]
                 return ('call', 'op:' + n, args)
+            if obj is not None and n == 'append' and len(args) == 1 and args[0][0] == 'str':
+                so = self.E(obj, P, fr)
+                if so[0] == 'str' and strip(obj, casts=True).get('k') in ('local', 'param'):
+                    self.assign(obj, ('str', so[1] + args[0][1]), P, fr, loc)
+                    return ('str', so[1] + args[0][1])
             if obj is not None and n in ('empty', 'size', 'length', 'compare', 'c_str', 'data'):
                 so = self.E(obj, P, fr)
                 if so[0] == 'str':
@@ -630,8 +672,19 @@ class Evaluator:
                 return num(int((args[0][1] == args[1][1]) == (n == 'operator==')))
             if obj is not None:
                 ob = strip(obj, casts=True)
+                fr_o = fr
+                # a reference parameter / reference local bound to a member is that member
+                for _ in range(4):
+                    if ob.get('k') == 'param' and not ob.get('foreign') and ob['i'] < len(fr_o['args']) and fr_o['args'][ob['i']][0] == 'alias':
+                        al = fr_o['args'][ob['i']]
+                        ob, fr_o = strip(al[1], casts=True), al[2]
+                    elif ob.get('k') == 'local' and P.locals.get((fr_o['id'], ob['id']), ('x',))[0] == 'alias':
+                        al = P.locals[(fr_o['id'], ob['id'])]
+                        ob, fr_o = strip(al[1], casts=True), al[2]
+                    else:
+                        break
                 if ob.get('k') == 'member':
-                    path = self.mpath(ob, P, fr)
+                    path = self.mpath(ob, P, fr_o)
                     if path is not None:
                         self.trace.obj_calls.append((path, n, args, loc))
                         if n in MUT:
@@ -1159,6 +1212,26 @@ class Evaluator:
                 live = live[:MAX_PATHS // 2]
         return live + done
 
+    def assume(self, c):
+        """invariants supplied by the caller: elements of the containers named in self.assume_nonnull are non-null pointers
+        (the registered addresses of the parameter store: C11.S2b / C12.H3 establish that only member addresses get in)"""
+        nn = getattr(self, 'assume_nonnull', ())
+        if not nn:
+            return c
+        neg = False
+        x = c
+        while x[0] == 'not':
+            neg = not neg
+            x = x[1]
+        def nonnull(t):
+            return t[0] == 'elem' and t[1][0] == 'sym' and t[1][1].split('.')[-1] in nn
+        if x[0] == 'cmp' and x[1] in ('==', '!=') and ((nonnull(x[2]) and x[3] == num(0)) or (nonnull(x[3]) and x[2] == num(0))):
+            v = (x[1] == '!=') != neg
+            return num(int(v))
+        if nonnull(x):
+            return num(int(not neg))
+        return c
+
     def top_call(self, e):
         """the repository call that is the outermost operation of expression e (through copies and no-op casts), or None"""
         e = strip(e, casts=True) if e is not None else None
@@ -1193,12 +1266,21 @@ class Evaluator:
             return self.exec_block(s['s'], [P], fr)
         if getattr(self, 'unroll_paths', False):
             if k == 'decl' and len(s['vars']) == 1 and s['vars'][0].get('init') is not None and not s['vars'][0].get('static') and \
-                    not str(s['vars'][0].get('t', '')).endswith('&') and self.top_call(s['vars'][0]['init']) is not None:
+                    not str(s['vars'][0].get('t', '')).endswith('&') and (self.top_call(s['vars'][0]['init']) is not None or True):
                 v0 = s['vars'][0]
                 outs_ = []
                 for Q, val in self.eval_forking(v0['init'], P, fr):
-                    Q.locals[(fr['id'], v0['id'])] = val
-                    outs_.append(Q)
+                    # a value that selects between alternatives (ternary, helper returning NULL or a pointer) splits the path
+                    alts = split_ite([], val, limit=8) if (isinstance(val, tuple) and val and val[0] == 'ite') else [([], val)]
+                    for j, (cs_, v_) in enumerate(alts):
+                        R_ = Q if j == len(alts) - 1 else Q.fork()
+                        for c_ in cs_:
+                            R_.conds.append(c_)
+                            R_.events.append(('cond', c_, s.get('l')))
+                        R_.locals[(fr['id'], v0['id'])] = v_
+                        if v0['n'] in self.freeze:
+                            self.trace.frozen_values.setdefault(v0['n'], []).append(v_)
+                        outs_.append(R_)
                 return outs_
             if k == 'return' and s.get('e') is not None and self.top_call(s['e']) is not None:
                 outs_ = []
@@ -1248,23 +1330,30 @@ class Evaluator:
             return [P]
         if k == 'null':
             return [P]
+        if k == 'if' and getattr(self, 'unroll_paths', False) and not getattr(self, '_in_if_fork', False):
+            # `if (helper(...))` / `if (!helper(...))` with a helper that has several returning paths: continue once per path
+            ce = strip(s['c'], casts=True)
+            nots = 0
+            while isinstance(ce, dict) and ce.get('k') == 'un' and ce.get('op') == '!':
+                nots += 1
+                ce = strip(ce['e'], casts=True)
+            if self.top_call(ce) is not None:
+                res_ = self.eval_forking(ce, P, fr)
+                if len(res_) > 1:
+                    outs = []
+                    for Q, val in res_:
+                        cv = val
+                        for _ in range(nots):
+                            cv = ('not', cv)
+                        outs += self.exec_if(s, Q, fr, self.assume(cv))
+                    return outs
+                if len(res_) == 1 and res_[0][0] is P:
+                    cv = res_[0][1]
+                    for _ in range(nots):
+                        cv = ('not', cv)
+                    return self.exec_if(s, P, fr, self.assume(cv))
         if k == 'if':
-            c = self.E(s['c'], P, fr)
-            known = self.truth(c)
-            outs = []
-            if known is not False:
-                A = P.fork() if known is None else P
-                if known is None:
-                    A.conds.append(c)
-                    A.events.append(('cond', c, s.get('l')))
-                outs += self.exec_stmt(s['then'], A, fr)
-            if known is not True:
-                B = P.fork() if known is None else P
-                if known is None:
-                    B.conds.append(('not', c))
-                    B.events.append(('cond', ('not', c), s.get('l')))
-                outs += self.exec_stmt(s['else'], B, fr) if s.get('else') else [B]
-            return outs
+            return self.exec_if(s, P, fr, self.assume(self.E(s['c'], P, fr)))
         if k == 'switch':
             return self.exec_switch(s, P, fr)
         if k in ('for', 'while', 'do'):
@@ -1282,10 +1371,30 @@ class Evaluator:
             P.kind = 'exit'
         return [P]
 
+    def exec_if(self, s, P, fr, c):
+        if True:
+            known = self.truth(c)
+            outs = []
+            if known is not False:
+                A = P.fork() if known is None else P
+                if known is None:
+                    A.conds.append(c)
+                    A.events.append(('cond', c, s.get('l')))
+                outs += self.exec_stmt(s['then'], A, fr)
+            if known is not True:
+                B = P.fork() if known is None else P
+                if known is None:
+                    B.conds.append(('not', c))
+                    B.events.append(('cond', ('not', c), s.get('l')))
+                outs += self.exec_stmt(s['else'], B, fr) if s.get('else') else [B]
+            return outs
+
     @staticmethod
     def truth(c):
         if c[0] == 'num':
             return c[1] != 0
+        if c[0] == 'addr':
+            return True         # the address of an object is not null
         if c[0] in ('or', 'and'):
             a, b = Evaluator.truth(c[1]), Evaluator.truth(c[2])
             if c[0] == 'or':
